@@ -92,6 +92,7 @@ var limitRe = regexp.MustCompile(`(?i)\bLIMIT\s+(\S+)`)
 func c07(c *Ctx) {
 	defer c07reads(c)
 	defer c07deletedIsMarked(c)
+	defer c.flagCase("R07.8")
 	defer c.uncheckedDeleteOnlyFresh("R07.2")
 	P, R := c.P, c.R
 	R.Explain("R07.1", "ordering: in every function that creates message rows (tx.CreateMessages / tx.CreateMessageAndAddToMailbox) each success return is also preceded by the write of the message literal to the store (Set/SetUnchecked, directly or inside a worker closure) — a listed message always has its bytes; the store write happens inside the transaction closure or before it, never after the commit wrapper returned.")
